@@ -166,6 +166,21 @@ def audit_assumptions(text):
     return (len(bad) == 0 and len(axioms) > 0), axioms
 
 
+def coqchk_audit(pid, timeout=1500):
+    """thorough tier: re-check the compiled statement file and everything it depends on with the independent checker"""
+    rc, out, err = sh(["coqchk", "-o", "-silent", "-Q", "theories", "RIO", "-Q", "gen", "RIOGen", "-Q", "properties", "RIOProps", f"RIOProps.{pid}"], timeout, cwd=COQ)
+    text = (out or "") + (err or "")
+    ok = rc == 0
+    summary = {}
+    for key, label in (("axioms", "* Axioms:"), ("type_in_type", "relying on type-in-type:"), ("unsafe_fix", "relying on unsafe (co)fixpoints:"), ("positivity", "whose positivity is assumed:")):
+        i = text.find(label)
+        val = text[i + len(label):].split("\n")[0].strip() if i >= 0 else "?"
+        summary[key] = val
+        if val != "<none>":
+            ok = False
+    return ok, summary, text[-1200:]
+
+
 def failing_items(make_output):
     """Names the .v files (and the enclosing statement when it can be found) that failed."""
     res = []
@@ -393,6 +408,7 @@ def main():
     run_targets = [r.replace("RIO.", "theories/") + ".vo" for r in cfg["run_requires"]]
     rc, mk_out = make_targets([f"properties/{pid}.vo"] + run_targets)
     proofs_ok = rc == 0
+    coqchk_report = {"ran": False}
     assumptions = {}
     discharged = 0
     if proofs_ok:
@@ -403,6 +419,11 @@ def main():
                 discharged += 1
             else:
                 problems.append({"kind": "assumptions", "what": n, "detail": f"Print Assumptions {n}: {assumptions.get(n)}"})
+        if tier == "thorough" and os.environ.get("VERIF_COQCHK", "1") != "0":
+            ck_ok, ck_summary, ck_tail = coqchk_audit(pid)
+            coqchk_report = {"ran": True, "ok": ck_ok, "summary": ck_summary}
+            if not ck_ok:
+                problems.append({"kind": "coqchk", "what": f"coqchk RIOProps.{pid}", "detail": ck_tail})
     else:
         items = failing_items(mk_out)
         if not items:
@@ -525,7 +546,7 @@ def main():
         "property_id": pid, "tier": tier, "seed": seed, "level": "proof",
         "coverage": {
             "obligations": obligations, "discharged": disc,
-            "checker_cmd": f"make -C coq properties/{pid}.vo (coqc 8.16.1) ; coqc Print Assumptions per theorem ; vm_compute verdicts over harness cases",
+            "checker_cmd": f"make -C coq properties/{pid}.vo (coqc 8.16.1) ; coqc Print Assumptions per theorem ; vm_compute verdicts over harness cases" + (f" ; coqchk -o RIOProps.{pid}: {coqchk_report.get('summary')}" if coqchk_report.get("ran") else ""),
             "trusted_base": trusted,
             "theorems": names,
             "evaluations": len(cases), "distinct_nontrivial": len(distinct),
